@@ -7,3 +7,51 @@ add("C07", "exploration", "runtime monitor: reference merge fold over the script
     "All reply tuples up to the tier's bound (n TTLs, K replies, 2n+3 delivery slots incl. ties with send instants) are enumerated and executed against the real TracerouteParallel; random schedules beyond the bound; a real-goroutine stress tier runs under the race detector with yields injected at the engine's only suspension points. Held = result equalled clip(fold(hand-out order)) on every execution.",
     "Exhaustive only up to the stated bound; the fold oracle trusts the scripted driver's boundary log; the Go scheduler decides real interleavings in the stress tier.",
     "DESIGN.md section 5 C07")
+
+SIM = "Trusts the independent wirefmt codec and the refmatch reference matcher/fold (harness code, cross-checked against kernel routers in C13), the Go testing/synctest virtual clock and the verif-tagged NewSourceSink seam; inputs are generated, not exhaustive; Linux build only."
+
+add("C01", "exploration", "runtime monitor: reference matcher + reference fold over the ledger of a simulated wire (real entry points, synctest virtual clock)",
+    "Every variant's real entry point runs on a simulated wire; around every probe the single-field perturbation lattice of every identifying field, perturbed direct replies, looped-back own probes, stale replies of a previous run and noise are injected ahead of the genuine replies, each from a unique source address. The monitor compares the returned path with the reference fold of what the handle actually read. Held = no hop without an acceptable backing frame on the executions observed.",
+    SIM, "DESIGN.md section 5 C01")
+add("C02", "exploration", "runtime monitor: reference fold / per-hop completeness over the device-behaviour catalogue on a simulated wire",
+    "Each reply form of the catalogue (quote styles, outer options, rewritten quoted TTL/checksum/TOS, NAT-rewritten source, unreachable codes, echo replies, SYN-ACK option mixes, RST, RST-ACK, SACK block layouts, ISN bases at wrap) answers every TTL of a window through the real code with loss/duplication/late arrival of other replies; every must-accept frame read inside its window must appear as its hop.",
+    SIM, "DESIGN.md section 5 C02")
+add("C04", "exploration", "runtime monitor: reference fold with the statement's destination table over a responder-class product",
+    "Reply form x responder class (target, on-path router, off-path host with the same identifiers, local address) x position x arrival order through the real entry points; the destination flag of every hop is compared with the table in the property statement.",
+    SIM, "DESIGN.md section 5 C04")
+add("C05", "exploration", "runtime monitor: virtual-clock RTT oracle (read instant of first accepted reply minus WriteTo instant of that TTL's probe)",
+    "Delay plans incl. overtaking, duplicates, near-budget and window-crossing replies at production and discriminating timing scales; on the virtual clock the expected RTT is exact, so the oracle is equality within 2 us and the property's one-poll tolerance is never needed; end-to-end samples are compared with the destination-hop RTT of their own probe in the C15 workload.",
+    SIM + " A send timestamp taken after WriteTo is not detectable on a virtual clock.", "DESIGN.md section 5 C05")
+add("C06", "exploration", "runtime monitor: independent packet verifier + emission automaton on Sink.WriteTo",
+    "Every byte string handed to the sink in every simulated run of this and all other wire checks is decoded and verified (lengths, all checksums, TTL sequence, flow constancy, identifier uniqueness, pacing on the virtual clock incl. after an injected slow send, stop rule, reported endpoints).",
+    SIM + " Paris-mode random identifiers: collisions counted, not flagged.", "DESIGN.md section 5 C06")
+add("C09", "exploration", "runtime monitor: abort/crash freedom + noise-free twin equality under truncation, structure-aware mutation, near-miss and random frames",
+    "Hostile byte strings are injected at every phase of real runs; the run must not abort or crash, hops must stay justified, and when the reference matcher rejects every injected frame the result must equal the noise-free twin run exactly. A crash of the process is attributed to the journaled case.",
+    SIM + " Frames larger than the tool's buffer are truncated like the kernel does.", "DESIGN.md section 5 C09")
+add("C10", "fault_enumeration", "fault injection at every k-th call of every capture/send operation + life-cycle, goroutine-leak and fd monitors",
+    "Census of operation counts per variant, then one run per (operation, k, error class) and SACK dial refusal; exhaustive over single faults for the census of the chosen scenarios, sampled pairs in the thorough tier.",
+    SIM + " MustClosePort branches are unreachable on Linux.", "DESIGN.md section 5 C10")
+add("C11", "exploration", "runtime monitor: per-flow reference fold on a shared wire + live-range overlap monitor on the allocators under the race detector",
+    "K concurrent runs and whole requests share one wire on which every handle sees every frame; each run must equal the fold of its own flow and carry no other flow's router; identifiers on the wire and allocator blocks of live runs must be pairwise disjoint (window interpretation: fewer than 65536 identifiers handed out between two live blocks).",
+    SIM + " Relaxed UDP/TCP source checking is outside the claim (no entry point enables it).", "DESIGN.md section 5 C11")
+add("C14", "exploration", "Go race detector over an unsynchronised pre-seeded wire, concurrent runs and whole requests, repeated",
+    "The built-in race detector observes real goroutines; the wire adds no happens-before edge between sender and receiver and makes every TTL's reply arrive both before and after its probe is recorded. Held = no report with repository frames on the interleavings the scheduler produced; a run without both orders is inconclusive.",
+    "A silent detector is not race freedom; interleavings are chosen by the Go scheduler; Linux build only.", "DESIGN.md section 5 C14")
+add("C15", "exploration", "runtime monitor: all-or-error / exact-count oracle over RunTraceroute with per-role failure injection, bubble + race detector",
+    "Query counts x failing subsets x completion orders x fetcher behaviours x cancellation instants through the real RunTraceroute over a shared simulated wire; errors.Is must reach every injected per-flow sentinel.",
+    SIM, "DESIGN.md section 5 C15")
+add("C16", "exploration", "reference computations over generated result documents through the real Normalize() and encoding/json",
+    "Small documents enumerated exhaustively, larger ones seeded random; relations of the statement, permutation invariance, id freshness over the whole run, golden JSON key paths and round trip.",
+    "Floating-point rounding of the mean is tolerated (8n+8 ulp); golden key list embedded in the harness.", "DESIGN.md section 5 C16")
+add("C17", "exploration", "twin-run comparison (skip-private-hops off/on) against a reference private-range predicate: documents, simulated wire, HTTP handler",
+    "Hop addresses on every private block boundary in every encoding through RemovePrivateHops, through RunTraceroute on a simulated wire whose routers have those addresses with a scripted resolver, and through the HTTP handler with an independent JSON decoder.",
+    SIM, "DESIGN.md section 5 C17")
+add("C18", "exploration", "scripted resolver / RoundTripper oracles, exact reference cache map, porcupine linearizability check of recorded cache histories",
+    "Enrichment field-by-field against the resolver script; sequential cache programs against an exact reference; concurrent cache histories recorded at the call boundary and checked per key with porcupine against a register-with-expiry that stores only successes; provider scripts judged on the recorded request sequence.",
+    "Cache replaced by a janitor-less instance on the bubble clock; get-or-compute atomicity is not claimed.", "DESIGN.md section 5 C18")
+add("C19", "exploration", "parameter grid through RunTraceroute and the HTTP handler on a silent simulated wire; wire TTL/address/port/kind oracle; crash attribution by journal",
+    "Every grid point is either rejected or must put exactly the requested TTL set, address, port and probe kind on the wire; unrepresentable values must be rejected.",
+    SIM, "DESIGN.md section 5 C19")
+add("C20", "exploration", "decision-table oracle over method x target capability x injected failure with a real listener in a peer namespace",
+    "Observes probe kinds per handle, listener accepts, error chain (errors.As NotSupportedError / errors.Is injected cause) and result for every combination.",
+    SIM + " Faults are combined only with a SACK-capable target.", "DESIGN.md section 5 C20")
